@@ -219,6 +219,8 @@ def parse_output(text, job) -> KaniResult:
                 return r
         elif status == "UNREACHABLE" and job.expect_fail:
             continue    # expected-panic harness: everything behind the panic is unreachable by design
+        elif status == "UNREACHABLE" and job.native_oracle and r.expected_hit:
+            continue    # the allowed panic is reachable and may cut the witness off: the native oracle decides what it leaves behind
         elif status != "SATISFIED":
             r.verdict = "inconclusive"
             r.reason = "vacuity witness not satisfied: %s (%s)" % (msg, status)
